@@ -101,6 +101,14 @@ func main() {
 					v := td.gen(hx.NewRand(r.Uint64()))
 					var b []byte
 					if p := hx.Catch(func() { b, _ = td.marsh(v) }); p == "" && len(b) > 0 {
+						// children written in Go map order: fix the order, so that the run
+						// is a function of the seed
+						if td.canon != nil {
+							if t, err := parseDoc(b); err == nil {
+								td.canon(t)
+								b = renderDoc(t, false)
+							}
+						}
 						docs = append(docs, b)
 					}
 				}
